@@ -16,7 +16,7 @@ use crate::layout;
 use crate::model;
 use crate::ops::{case_strategy, Bias, Case, Op};
 use crate::seq::{self, CaseStats, Flags, Runner};
-use crate::trace::{self, Entry, FaultMode, FaultPlan, Mark};
+use crate::trace::{self, FaultMode, FaultPlan, Mark};
 
 #[derive(Clone, Debug, Serialize, Deserialize)]
 pub struct PlanSpec {
@@ -68,10 +68,34 @@ fn bias(tier: Tier) -> Bias {
     }
 }
 
-fn case_strat(tier: Tier) -> BoxedStrategy<FaultCase> {
-    (case_strategy(&bias(tier)), proptest::collection::vec(plan_strategy(), tier.pick(3, 6)..tier.pick(6, 12)))
-        .prop_map(|(case, plans)| FaultCase { case, plans })
+/// A write burst through one shard: more than 1024 buffered entries while the device is failing.
+fn burst_strategy() -> BoxedStrategy<FaultCase> {
+    use crate::ops::{key_at, Config, DevSize, LenClass, TsSpec, ValKind, ValSpec};
+    (60usize..250, 600usize..1500, any::<bool>(), 0u64..1_000_000_000_000u64, proptest::collection::vec((0u16..20_000, prop_oneof![Just(0u8), Just(0u8), Just(3u8), Just(7u8)], any::<bool>()), 1..3), proptest::collection::vec((any::<u16>(), 1u16..200), 600..1500))
+        .prop_map(|(nkeys, _writes, plain_io, t0_offset, plans, writes)| {
+            let cfg = Config { persistent: true, version: 3, cache: false, ttl: false, dev: DevSize::Normal, max_memory: None, plain_io, legacy_plain_meta: false, visible_cpus: 2 };
+            let keys: Vec<Vec<u8>> = (0..nkeys).map(|i| format!("b{i:03}").into_bytes()).collect();
+            let mut ops: Vec<Op> = Vec::new();
+            // a first acknowledged generation of a few keys, then the burst, then a flush
+            for j in 0..8.min(nkeys) {
+                ops.push(Op::Insert { k: key_at(j, nkeys), v: ValSpec { len: LenClass::Small(30), kind: ValKind::Stamp }, ts: TsSpec::Auto, bytes: false });
+            }
+            ops.push(Op::Flush);
+            for (k, l) in writes {
+                ops.push(Op::Insert { k: crate::ops::KeyRef::Idx(k), v: ValSpec { len: LenClass::Small(l), kind: ValKind::Stamp }, ts: TsSpec::Auto, bytes: false });
+            }
+            ops.push(Op::Flush);
+            let plans = plans.into_iter().map(|(k, count, after)| PlanSpec { k, count, after, second: None }).collect();
+            FaultCase { case: Case { cfg, keys, t0_offset, ops }, plans }
+        })
         .boxed()
+}
+
+fn case_strat(tier: Tier) -> BoxedStrategy<FaultCase> {
+    let normal = (case_strategy(&bias(tier)), proptest::collection::vec(plan_strategy(), tier.pick(3, 6)..tier.pick(6, 12)))
+        .prop_map(|(case, plans)| FaultCase { case, plans })
+        .boxed();
+    proptest::strategy::Union::new_weighted(vec![(12, normal), (1, burst_strategy())]).boxed()
 }
 
 #[derive(Default, Clone)]
@@ -143,7 +167,7 @@ pub fn run_with_plan(case: &Case, plan: Option<&PlanSpec>, n_estimate: usize, no
         }
     };
     runner.fault_dev = Some(dev.clone());
-    runner.readback_policy = Some(0);
+    runner.readback_policy = Some(if case.ops.len() > 200 { 1 } else { 0 });
     // install the plan relative to the I/O calls that follow the open
     let calls_at_open = dev.lock().unwrap().io_calls;
     if let Some(p) = plan {
